@@ -10,7 +10,9 @@ Import ListNotations.
 Record c19_step := Step {
   s_op : op;
   s_exec : option (list (list val));            (* for OExec r: what the origin captured *)
-  s_probes : list (nat * list (list val)) }.    (* after the step: (client, captured probe) *)
+  s_probes : list (nat * list (list val)) }.    (* after the step: (client, captured probe) for every live client
+                                                   whose probe differs from its previous one; the others emitted
+                                                   exactly what they emitted before *)
 
 Definition c19_case := list c19_step.
 
@@ -33,17 +35,19 @@ Definition odesc_eqb (a b : option (list (list nat))) : bool :=
   | _, _ => false
   end.
 
-Fixpoint c19_run (st : state) (l : c19_case) : bool :=
+(* obs: the latest captured probe of every live client *)
+Fixpoint c19_run (st : state) (obs : list (nat * list (list val))) (l : c19_case) : bool :=
   match l with
   | [] => true
   | s :: t =>
       let st' := step go_grow8 gen_tbl st (s_op s) in
+      let obs' := fold_left (fun acc cd => nset (fst cd) (snd cd) acc) (s_probes s) obs in
       (match s_op s with
        | OExec r => odesc_eqb (exec st' r) (s_exec s)
        | _ => true
        end)
-      && forallb (fun cd => odesc_eqb (probe st' (fst cd)) (Some (snd cd))) (s_probes s)
-      && c19_run st' t
+      && forallb (fun cd => odesc_eqb (probe st' (fst cd)) (Some (snd cd))) obs'
+      && c19_run st' obs' t
   end.
 
-Definition c19_check (c : c19_case) : bool := c19_run init_state c.
+Definition c19_check (c : c19_case) : bool := c19_run init_state [] c.
